@@ -67,6 +67,8 @@ def run(chk):
             d = b"-"
             rec = d.join(parts)
             inp = (rec + eol) * rng.randint(1, 2) if n > 0 else eol
+            if n > 0 and rng.random() < 0.3:
+                inp = inp[:-1]            # final record without EOL (possibly ending in a delimiter)
             c.update({"eng": {"str": "str", "fast": "fast", "json": "str", "m": "str", "M": "stream", "fmt": "auto"}[mode], "d": d, "in": inp})
             if mode == "json":
                 c["json"] = True
